@@ -98,7 +98,7 @@ func parseSignature(sig []byte) ([]byte, []byte, error) {
 		!inner.Empty() {
 		return nil, nil, errors.New("invalid ASN.1")
 	}
-	if sBytes[0] != 4 {
+	if len(sBytes) == 0 || sBytes[0] != 4 {
 		return nil, nil, errors.New("sm9: invalid point format")
 	}
 	return hBytes, sBytes, nil
@@ -273,6 +273,9 @@ func Decrypt(priv *EncryptPrivateKey, uid, ciphertext []byte, opts EncrypterOpts
 		opts = DefaultEncrypterOpts
 	}
 
+	if len(ciphertext) <= 64+sm3.Size {
+		return nil, ErrDecryption
+	}
 	c1 := ciphertext[:64]
 	c3c2 := ciphertext[64:]
 	c3 := c3c2[:sm3.Size]
